@@ -6,19 +6,30 @@
 //	    all 256 first bytes x lengths x trailing data, replies counted before the reply to a
 //	    well-formed sentinel sent from the same socket.
 //
-// NTS-valid trailing data (a request that authenticates) is out of this command's scope
-// (C10/C11); the SCION listener is C13's.
+//	(c) socket level, histories: datagrams from ONE client socket (one listener goroutine, in
+//	    order) mixing plain NTP requests, authentic NTS requests of several associations (built
+//	    with the real ntske/nts code), junk-cookie and malformed datagrams (op ip.hist): every
+//	    valid request, plain or NTS, is answered exactly once, an NTS request with a reply that
+//	    authenticates under its own association's keys, whatever the socket saw before.
+//
+// The content of the NTS branch (cookie budget, key rotation) is C10/C11's; the SCION listener
+// is C13's.
 package main
 
 import (
+	"bytes"
 	"context"
+	crand "crypto/rand"
 	"encoding/binary"
 	"encoding/hex"
 	"fmt"
 	"io"
 	"log/slog"
+	mrand "math/rand/v2"
 	"net"
 	"net/netip"
+	"os"
+	osexec "os/exec"
 	"strconv"
 	"strings"
 	"sync"
@@ -31,6 +42,7 @@ import (
 	"example.com/scion-time/net/ntske"
 	"example.com/scion-time/net/udp"
 
+	"verifharness/cmd/c10/ntsx"
 	"verifharness/lib"
 )
 
@@ -52,12 +64,29 @@ func needClock() { clockOnce.Do(func() { timebase.RegisterClock(sysClock{}) }) }
 // ---------------------------------------------------------------- the listener
 
 var (
-	srvOnce  sync.Once
-	srvAddr  netip.AddrPort
-	srvErr   error
-	clients  []*net.UDPConn
-	sentinel uint32
+	srvOnce     sync.Once
+	srvAddr     netip.AddrPort
+	srvErr      error
+	clients     []*net.UDPConn
+	sentinel    uint32
+	srvProvider *ntske.Provider
 )
+
+// detRand replaces crypto/rand.Reader for the whole process, before the listener starts: the
+// provider's key (the first 32 bytes drawn) is then the same in every run, so that a recorded
+// NTS request (its cookie is sealed under that key) replays in a fresh process; nonces and unique
+// identifiers drawn by the real ntske/nts code while the generator builds requests are
+// reproducible too. Safe for the listener's goroutines (mutex).
+type detRand struct {
+	mu  sync.Mutex
+	src *mrand.ChaCha8
+}
+
+func (d *detRand) Read(p []byte) (int, error) {
+	d.mu.Lock()
+	defer d.mu.Unlock()
+	return d.src.Read(p)
+}
 
 const numClients = 12 // more sockets than listener goroutines: several 4-tuples per server socket
 
@@ -74,8 +103,10 @@ func startServer() {
 	}
 	port := probe.LocalAddr().(*net.UDPAddr).Port
 	log := slog.New(slog.NewTextHandler(io.Discard, nil))
+	crand.Reader = &detRand{src: mrand.NewChaCha8([32]byte{'v', 'e', 'r', 'i', 'f', '-', 'c', '0', '9'})}
+	srvProvider = ntske.NewProvider()
 	server.StartIPServer(context.Background(), log,
-		&net.UDPAddr{IP: net.IPv4(127, 0, 0, 1), Port: port}, 0, ntske.NewProvider())
+		&net.UDPAddr{IP: net.IPv4(127, 0, 0, 1), Port: port}, 0, srvProvider)
 	probe.Close()
 	srvAddr = netip.AddrPortFrom(netip.AddrFrom4([4]byte{127, 0, 0, 1}), uint16(port))
 	for i := 0; i < numClients; i++ {
@@ -331,6 +362,289 @@ func seq(payloads [][]byte) string {
 	return fmt.Sprintf("ok answered=%s extra=%d sentinel=%s shape=%s", pat, extra, st, shape)
 }
 
+// ---------------------------------------------------------------- histories with NTS associations
+
+type assocKeys struct{ c2s, s2c []byte }
+
+const ntsMaxLen = 1024 // nts.MaxPacketLen, restated (the oracle does not read it from the code)
+
+func pad4(n int) int { return (n + 3) &^ 3 }
+
+// fitsReply: the number of cookieLen-byte cookies an NTS reply of at most ntsMaxLen bytes can carry
+// inside its authenticator next to the header and the echoed identifier (own arithmetic).
+func fitsReply(uidLen, cookieLen int) int {
+	n := 0
+	for 48+4+pad4(uidLen)+4+4+16+pad4((n+1)*(4+pad4(cookieLen))+16) <= ntsMaxLen {
+		n++
+	}
+	return n
+}
+
+// requestFields reads, from the bytes of a request alone, the unique identifier as it stands on
+// the wire and the number of cookie + placeholder fields in front of the authenticator.
+func requestFields(req []byte) (uid []byte, requested int) {
+	for _, f := range ntsx.Walk(req) {
+		switch f.Type {
+		case 0x104:
+			uid = req[f.Off+4 : f.Off+f.Len]
+		case 0x204, 0x304:
+			requested++
+		case 0x404:
+			return
+		}
+	}
+	return
+}
+
+// verifyNTSReply is the requester's view: the reply decodes, authenticates under the S2C key of
+// the association the request belongs to and echoes the request's identifier (real client code:
+// nts.DecodePacket + nts.ProcessResponse), carries min(requested, what fits) pairwise distinct
+// cookies, and every cookie opens under a valid provider key to this association's keys.
+func verifyNTSReply(req, rep []byte, k *assocKeys) string {
+	if k == nil {
+		return "no-association-keys"
+	}
+	uid, requested := requestFields(req)
+	var pkt nts.Packet
+	if err := nts.DecodePacket(&pkt, rep); err != nil {
+		return "decode:" + ntsx.ErrName(err)
+	}
+	var f ntske.Fetcher
+	if err := nts.ProcessResponse(rep, k.s2c, &f, &pkt, uid); err != nil {
+		return "auth:" + ntsx.ErrName(err)
+	}
+	cs := f.VerifC11Cookies()
+	want := requested
+	if len(cs) > 0 {
+		if fit := fitsReply(len(uid), len(cs[0])); fit < want {
+			want = fit
+		}
+	}
+	if len(cs) != want || len(cs) == 0 {
+		return fmt.Sprintf("count:%d-for-%d-requested", len(cs), requested)
+	}
+	seen := map[string]bool{}
+	for _, c := range cs {
+		if seen[string(c)] {
+			return "cookie-repeated"
+		}
+		seen[string(c)] = true
+		var ec ntske.EncryptedServerCookie
+		if err := ec.Decode(append([]byte(nil), c...)); err != nil {
+			return "cookie-undecodable"
+		}
+		key, ok := srvProvider.Get(int(ec.ID))
+		if !ok {
+			return "cookie-key-unknown"
+		}
+		sc, err := ec.Decrypt(key.Value)
+		if err != nil {
+			return "cookie-does-not-open"
+		}
+		if !bytes.Equal(sc.S2C, k.s2c) || !bytes.Equal(sc.C2S, k.c2s) {
+			return "cookie-of-another-association"
+		}
+	}
+	return ""
+}
+
+// hist runs a history of datagrams from one client socket (one listener socket, in order) and
+// attributes the replies by origin timestamp; replies longer than 48 bytes are verified against
+// the keys of the association the datagram belongs to.
+func hist(payloads [][]byte, keys []*assocKeys) string {
+	before, answered, ok := run(payloads)
+	if !ok {
+		return "err not-executed"
+	}
+	pat := make([]byte, len(payloads))
+	kinds := make([]byte, len(payloads))
+	for i := range pat {
+		pat[i], kinds[i] = '0', 'n'
+	}
+	extra, shape, why := 0, "ok", ""
+	for _, r := range before {
+		okShape := len(r.b) >= 48 && r.b[0] == 36 && r.b[1] == 1 && r.from == srvAddr &&
+			(len(r.b) == 48 || (len(r.b) <= ntsMaxLen && len(r.b)%4 == 0))
+		if !okShape {
+			shape = "bad"
+		}
+		match := func(p []byte) bool {
+			return len(p) >= 48 && len(r.b) >= 32 && bytes.Equal(r.b[24:32], p[40:48])
+		}
+		hit := -1
+		for i, p := range payloads { // first matching datagram that has no reply yet
+			if match(p) && pat[i] == '0' {
+				hit = i
+				break
+			}
+		}
+		if hit < 0 {
+			dup := false
+			for i, p := range payloads { // a second reply to the same datagram
+				if match(p) && pat[i] < '9' {
+					pat[i]++
+					dup = true
+					break
+				}
+			}
+			if !dup {
+				extra++
+			}
+			continue
+		}
+		pat[hit] = '1'
+		switch {
+		case len(r.b) == 48:
+			kinds[hit] = 'p'
+		default:
+			kinds[hit] = 'a'
+			if w := verifyNTSReply(payloads[hit], r.b, keys[hit]); w != "" {
+				kinds[hit] = 'x'
+				why += fmt.Sprintf(" why%d=%s", hit, w)
+			}
+		}
+	}
+	st := "answered"
+	if !answered {
+		st = "unanswered"
+	}
+	return fmt.Sprintf("ok answered=%s kinds=%s extra=%d sentinel=%s shape=%s%s", pat, kinds, extra, st, shape, why)
+}
+
+// ntsViews computes, with the real nts/ntske functions on fresh structs (nothing of the
+// listener's loop), what the NTS branch sees of every datagram of a history: the cookie fields
+// nts.DecodePacket collects, whether it succeeds, and under which of the history's cookies the
+// rest of the branch would succeed. alone[i] = the branch succeeds on datagram i by itself.
+func ntsViews(ps [][]byte) (views []string, alone []bool) {
+	ids := map[string]int{}
+	var table [][]byte
+	decoded := make([][]int, len(ps))
+	decodes := make([]bool, len(ps))
+	for i, b := range ps {
+		if len(b) < 48 {
+			continue
+		}
+		var p nts.Packet
+		decodes[i] = nts.DecodePacket(&p, append([]byte(nil), b...)) == nil
+		for _, c := range p.Cookies {
+			id, ok := ids[string(c.Cookie)]
+			if !ok {
+				id = len(table)
+				ids[string(c.Cookie)] = id
+				table = append(table, append([]byte(nil), c.Cookie...))
+			}
+			decoded[i] = append(decoded[i], id)
+		}
+	}
+	okWith := func(b, cookie []byte) bool {
+		b = append([]byte(nil), b...)
+		var p nts.Packet
+		if nts.DecodePacket(&p, b) != nil {
+			return false
+		}
+		var ec ntske.EncryptedServerCookie
+		if ec.Decode(append([]byte(nil), cookie...)) != nil {
+			return false
+		}
+		key, ok := srvProvider.Get(int(ec.ID))
+		if !ok {
+			return false
+		}
+		sc, err := ec.Decrypt(key.Value)
+		if err != nil {
+			return false
+		}
+		if nts.ProcessRequest(b, sc.C2S, &p) != nil {
+			return false
+		}
+		return len(p.Cookies)+len(p.CookiePlaceholders) > 0
+	}
+	alone = make([]bool, len(ps))
+	for i, b := range ps {
+		var cs, oks []string
+		for _, id := range decoded[i] {
+			cs = append(cs, strconv.Itoa(id))
+		}
+		if decodes[i] {
+			for id, c := range table {
+				if okWith(b, c) {
+					oks = append(oks, strconv.Itoa(id))
+					if len(decoded[i]) > 0 && decoded[i][0] == id {
+						alone[i] = true
+					}
+				}
+			}
+		}
+		d := "0"
+		if decodes[i] {
+			d = "1"
+		}
+		views = append(views, d+":"+strings.Join(cs, ".")+":"+strings.Join(oks, "."))
+	}
+	return views, alone
+}
+
+// assoc is one NTS association: session keys as an NTS-KE exchange would have produced them and
+// cookies sealed by the real ntske code under the provider's current key.
+type assoc struct {
+	name string
+	k    assocKeys
+}
+
+func newAssoc(r *lib.Rand, name string) *assoc {
+	return &assoc{name: name, k: assocKeys{c2s: r.Bytes(32), s2c: r.Bytes(32)}}
+}
+
+func (a *assoc) cookieUnder(key []byte, id int) []byte {
+	sc := ntske.ServerCookie{Algo: ntske.AES_SIV_CMAC_256, S2C: a.k.s2c, C2S: a.k.c2s}
+	ec, err := sc.EncryptWithNonce(key, id)
+	if err != nil {
+		panic(err)
+	}
+	return ec.Encode()
+}
+
+func (a *assoc) cookie() []byte {
+	key := srvProvider.Current()
+	return a.cookieUnder(key.Value, key.ID)
+}
+
+// request builds the request the project's client sends at pool level `level` (one cookie,
+// placeholders for the missing ones) with the real nts code on the NTP header hdr.
+func (a *assoc) request(hdr []byte, level int) []byte {
+	var pool [][]byte
+	for i := 0; i < level; i++ {
+		pool = append(pool, a.cookie())
+	}
+	pkt, _ := nts.NewRequestPacket(ntske.Data{Algo: ntske.AES_SIV_CMAC_256, C2sKey: a.k.c2s, S2cKey: a.k.s2c, Cookie: pool})
+	b := append([]byte(nil), hdr...)
+	nts.EncodePacket(&b, &pkt)
+	return b
+}
+
+// failsInFreshProcess replays one op line in a new process (a listener that has seen nothing
+// else) and reports whether its answer still differs from want.
+func failsInFreshProcess(op, want string) (bool, string) {
+	f, err := os.CreateTemp("", "c09-replay-*.txt")
+	if err != nil {
+		return false, ""
+	}
+	defer os.Remove(f.Name())
+	f.WriteString(op + "\n")
+	f.Close()
+	ctx, cancel := context.WithTimeout(context.Background(), 20*time.Second)
+	defer cancel()
+	out, err := osexec.CommandContext(ctx, os.Args[0], "-replay", f.Name()).Output()
+	if err != nil {
+		return false, ""
+	}
+	ans := strings.TrimSpace(string(out))
+	if !strings.HasPrefix(ans, "ok ") {
+		return false, ans
+	}
+	return ans != want, ans
+}
+
 // ---------------------------------------------------------------- exec
 
 func unhex(s string) []byte {
@@ -384,6 +698,30 @@ func exec(t []string) string {
 			return "bad-op" // authenticated requests are not generated by this command
 		}
 		return dgram(unhex(t[1]))
+	case t[0] == "ip.hist" && len(t) == 4:
+		if !strings.HasPrefix(t[2], "nv=") || !strings.HasPrefix(t[3], "ak=") {
+			return "bad-op"
+		}
+		var ps [][]byte
+		for _, h := range strings.Split(t[1], ",") {
+			ps = append(ps, unhex(h))
+		}
+		aks := strings.Split(t[3][3:], ",")
+		if len(aks) != len(ps) {
+			return "bad-op"
+		}
+		keys := make([]*assocKeys, len(ps))
+		for i, a := range aks {
+			if a == "-" {
+				continue
+			}
+			j := strings.IndexByte(a, '.')
+			if j < 0 {
+				return "bad-op"
+			}
+			keys[i] = &assocKeys{c2s: unhex(a[:j]), s2c: unhex(a[j+1:])}
+		}
+		return hist(ps, keys)
 	case t[0] == "ip.seq" && len(t) == 3:
 		if t[2] != "nts=0" {
 			return "bad-op"
@@ -708,6 +1046,8 @@ func gen(c *lib.Ctx) {
 		sendSeq(ps, "mixed")
 	}
 
+	ntsHistories(c, r, validReq, junk, &unanswered, &skipped, &notExec, maxUnanswered, remember, func() []string { return append([]string{}, recent...) })
+
 	c.Comment("IP listener on loopback: 256 first bytes x lengths x trailing data")
 	lengths := []int{0, 1, 47, 48, 49, 76, 1024, 2048, 2049}
 	for b0 := 0; b0 < 256; b0++ {
@@ -804,6 +1144,299 @@ func gen(c *lib.Ctx) {
 	}
 	if notExec > 0 {
 		c.NotExecuted(fmt.Sprintf("%d loopback exchanges got no sentinel reply within the timeout (sandbox)", notExec))
+	}
+}
+
+// ---------------------------------------------------------------- histories mixing plain NTP, NTS associations, junk
+
+// item is one datagram of a history: its bytes, the association it was derived from (whose keys
+// a reply has to be authentic under) and whether it was built as a valid request.
+type item struct {
+	b     []byte
+	a     *assoc
+	kind  string
+	valid bool // built as a valid client request (plain or NTS): must be answered exactly once
+}
+
+// ntsHistories: sequences on ONE client socket (hence one listener goroutine, in order) mixing
+// plain NTP requests, authentic NTS requests of several associations (distinct keys and cookies,
+// built with the real ntske/nts code), datagrams that leave a cookie behind in the decoder
+// (junk cookie fields, undecodable / unknown-key / wrong-key cookies, good cookie with a forged
+// authenticator) and malformed datagrams (field mutations, truncations).
+// Oracle: every datagram is answered exactly once iff it is a well-formed client request by
+// itself — 48..2048 bytes, well-formed first byte, and, when longer than 48 bytes, the NTS branch
+// evaluated on this datagram alone (fresh structs) succeeds —, a plain request with a 48-byte
+// reply, an NTS request with a reply that authenticates under ITS association's S2C key and
+// carries fresh cookies of that association; independent of everything the socket saw before.
+func ntsHistories(c *lib.Ctx, r *lib.Rand, validReq func() []byte, junk func(int) []byte,
+	unanswered, skipped, notExec *int, maxUnanswered int, remember func(string), recentOps func() []string) {
+	c.Comment("IP listener: histories on one socket mixing plain NTP, NTS associations A/B/C, junk cookies, malformed datagrams")
+	assocs := []*assoc{newAssoc(r, "A"), newAssoc(r, "B"), newAssoc(r, "C")}
+	nonReq := func() []byte { // a 48-byte header that is not a client request (server mode)
+		h := validReq()
+		h[0] = 0x24
+		return h
+	}
+	mk := func(kind string, a *assoc) item {
+		switch kind {
+		case "plain":
+			return item{validReq(), nil, kind, true}
+		case "nts": // as the project's client builds it, pool level 1..8
+			return item{a.request(validReq(), 1+r.Intn(8)), a, kind, true}
+		case "nts-full": // full pool: one cookie, no placeholder
+			return item{a.request(validReq(), 8), a, kind, true}
+		case "nts-foreign": // another implementation's encoder, longer identifier, short placeholders
+			fields := [][]byte{ntsx.RawField(0x104, r.Bytes([]int{32, 36, 48, 64, 200}[r.Intn(5)])), ntsx.RawField(0x204, a.cookie())}
+			for i := r.Intn(4); i > 0; i-- {
+				fields = append(fields, ntsx.RawField(0x304, make([]byte, []int{4, 124}[r.Intn(2)])))
+			}
+			return item{ntsx.ForeignPacket(validReq(), fields, a.k.c2s, r.Bytes(16), nil), a, kind, true}
+		case "nts-two-cookies": // a request carrying two cookies of its association
+			fields := [][]byte{ntsx.RawField(0x104, r.Bytes(32)), ntsx.RawField(0x204, a.cookie()), ntsx.RawField(0x204, a.cookie())}
+			return item{ntsx.ForeignPacket(validReq(), fields, a.k.c2s, r.Bytes(16), nil), a, kind, true}
+		case "nts-nonrequest": // authentic NTS fields behind a header that is not a client request
+			return item{a.request(nonReq(), 1+r.Intn(8)), a, kind, false}
+		case "junk-cookie-field": // header + one cookie field nothing can open (no identifier, no authenticator)
+			return item{append(validReq(), ntsx.RawField(0x204, r.Bytes([]int{32, 24, 124}[r.Intn(3)]))...), nil, kind, false}
+		case "junk-cookie-request": // complete NTS packet whose cookie is random bytes
+			fields := [][]byte{ntsx.RawField(0x104, r.Bytes(32)), ntsx.RawField(0x204, r.Bytes(124))}
+			return item{ntsx.ForeignPacket(validReq(), fields, r.Bytes(32), r.Bytes(16), nil), nil, kind, false}
+		case "cookie-unknown-key": // well-formed cookie under a key id the provider does not have
+			fields := [][]byte{ntsx.RawField(0x104, r.Bytes(32)), ntsx.RawField(0x204, a.cookieUnder(r.Bytes(32), 77))}
+			return item{ntsx.ForeignPacket(validReq(), fields, a.k.c2s, r.Bytes(16), nil), a, kind, false}
+		case "cookie-wrong-key": // the provider's key id, sealed under another key
+			fields := [][]byte{ntsx.RawField(0x104, r.Bytes(32)), ntsx.RawField(0x204, a.cookieUnder(r.Bytes(32), srvProvider.Current().ID))}
+			return item{ntsx.ForeignPacket(validReq(), fields, a.k.c2s, r.Bytes(16), nil), a, kind, false}
+		case "forged-auth": // a genuine cookie of the association, authenticator under a key the sender guessed
+			fields := [][]byte{ntsx.RawField(0x104, r.Bytes(32)), ntsx.RawField(0x204, a.cookie())}
+			return item{ntsx.ForeignPacket(validReq(), fields, r.Bytes(32), r.Bytes(16), nil), a, kind, false}
+		case "mutant": // one field of an authentic request damaged (may stay valid: decided by the branch alone)
+			ms := ntsx.FieldMutants(a.request(validReq(), 1+r.Intn(8)), r)
+			m := ms[r.Intn(len(ms))]
+			return item{m.B, a, kind + ":" + strings.SplitN(strings.TrimRight(m.Kind, "0123456789+-=x"), "=", 2)[0], false}
+		case "truncated":
+			b := a.request(validReq(), 1+r.Intn(8))
+			return item{b[:49+r.Intn(len(b)-49)], a, kind, false}
+		case "short":
+			return item{junk(r.Intn(48)), nil, kind, false}
+		case "nonrequest48":
+			return item{junk(48), nil, kind, false}
+		case "garbage":
+			return item{junk([]int{49, 76, 500, 2048}[r.Intn(4)]), nil, kind, false}
+		case "overlong":
+			return item{junk([]int{2049, 3000}[r.Intn(2)]), nil, kind, false}
+		}
+		panic("kind " + kind)
+	}
+	kinds := []string{"plain", "nts", "nts-full", "nts-foreign", "nts-two-cookies", "nts-nonrequest", "junk-cookie-field", "junk-cookie-request",
+		"cookie-unknown-key", "cookie-wrong-key", "forged-auth", "mutant", "truncated", "short", "nonrequest48", "garbage", "overlong"}
+	ntsValid := []string{"nts", "nts-full", "nts-foreign", "nts-two-cookies"}
+	leavesCookie := []string{"junk-cookie-field", "junk-cookie-request", "cookie-unknown-key", "cookie-wrong-key", "forged-auth", "nts-nonrequest", "truncated", "mutant"}
+
+	opOf := func(items []item) (op, want string, alone []bool) {
+		ps := make([][]byte, len(items))
+		hs := make([]string, len(items))
+		aks := make([]string, len(items))
+		for i, it := range items {
+			ps[i], hs[i], aks[i] = it.b, lib.Hex(it.b), "-"
+			if it.a != nil {
+				aks[i] = lib.Hex(it.a.k.c2s) + "." + lib.Hex(it.a.k.s2c)
+			}
+		}
+		views, alone := ntsViews(ps)
+		pat, kd := make([]byte, len(items)), make([]byte, len(items))
+		for i, it := range items {
+			pat[i], kd[i] = '0', 'n'
+			if len(it.b) >= 48 && len(it.b) <= 2048 && wellFormed(it.b[0]) && (len(it.b) == 48 || alone[i]) {
+				pat[i], kd[i] = '1', 'p'
+				if len(it.b) > 48 {
+					kd[i] = 'a'
+				}
+			}
+		}
+		op = fmt.Sprintf("ip.hist %s nv=%s ak=%s", strings.Join(hs, ","), strings.Join(views, ","), strings.Join(aks, ","))
+		want = fmt.Sprintf("ok answered=%s kinds=%s extra=0 sentinel=answered shape=ok", pat, kd)
+		return op, want, alone
+	}
+	// runOp executes one history and returns the indices whose fate is not the expected one
+	runOp := func(items []item) (op, ans, want string, bad []int, executed bool) {
+		op, want, _ = opOf(items)
+		ans = lib.Try(func() string { return exec(strings.Fields(op)) })
+		if ans == "err not-executed" {
+			*notExec++
+			return op, ans, want, nil, false
+		}
+		c.Emit(op, ans)
+		remember(fmt.Sprintf("ip.hist <%d datagrams> => %s", len(items), ans))
+		if ans == want {
+			return op, ans, want, nil, true
+		}
+		gp, gk := ntsx.Field(ans, "answered"), ntsx.Field(ans, "kinds")
+		wp, wk := ntsx.Field(want, "answered"), ntsx.Field(want, "kinds")
+		for i := range items {
+			if i >= len(gp) || i >= len(gk) || gp[i] != wp[i] || gk[i] != wk[i] {
+				bad = append(bad, i)
+			}
+		}
+		return op, ans, want, bad, true
+	}
+	failures := 0
+	history := func(items []item, what string) {
+		if *unanswered >= maxUnanswered || failures >= 6 { // a damaged listener: the findings are recorded, the rest would only repeat them
+			*skipped++
+			return
+		}
+		_, _, alone := opOf(items)
+		for i, it := range items {
+			if it.valid && len(it.b) > 48 && !alone[i] { // the request builders and the branch disagree without any listener involved
+				c.Fail("C09:nts:valid-request-refused-by-branch", "a request built as an authentic NTS request does not pass the NTS branch's calls on fresh structs",
+					[]string{func() string { o, _, _ := opOf([]item{it}); return o }()}, map[string]any{"kind": it.kind, "len": len(it.b)})
+				return
+			}
+		}
+		op, ans, want, bad, executed := runOp(items)
+		if !executed {
+			return
+		}
+		c.Count("hist:" + what)
+		for _, it := range items {
+			c.Count("hist-datagram:" + it.kind)
+		}
+		if len(bad) == 0 {
+			return
+		}
+		// A concrete failing history. Whatever earlier histories left in the listener is not part of
+		// this op line, so first see what the same op does in a new process (a listener that has seen
+		// nothing else), then look for a smaller history that still fails there.
+		failures++
+		firstBad := func(got, want string) int {
+			gp, gk := ntsx.Field(got, "answered"), ntsx.Field(got, "kinds")
+			wp, wk := ntsx.Field(want, "answered"), ntsx.Field(want, "kinds")
+			for i := range wp {
+				if i >= len(gp) || i >= len(gk) || gp[i] != wp[i] || gk[i] != wk[i] {
+					return i
+				}
+			}
+			return len(wp) - 1
+		}
+		j := bad[0]
+		replay, replayAns, replayWant, confirmed := op, ans, want, false
+		if fails, fans := failsInFreshProcess(op, want); fails {
+			replayAns, confirmed = fans, true
+			j = firstBad(fans, want)
+			var cands [][]item
+			for i := j - 1; i >= 0; i-- {
+				cands = append(cands, []item{items[i], items[j]})
+			}
+			if j+1 < len(items) {
+				cands = append(cands, items[:j+1])
+			}
+			for k, cand := range cands {
+				if k >= 6 {
+					break
+				}
+				cop, cwant, _ := opOf(cand)
+				if fails, cans := failsInFreshProcess(cop, cwant); fails {
+					replay, replayAns, replayWant = cop, cans, cwant
+					items = cand
+					j = firstBad(cans, cwant)
+					break
+				}
+			}
+		}
+		it := items[j]
+		gp, gk := ntsx.Field(replayAns, "answered"), ntsx.Field(replayAns, "kinds")
+		sig, whatTxt := "C09:listener:history:"+what, "the replies to a history of datagrams on one listener socket are not exactly one per well-formed request, each authentic under its own association"
+		wantsReply := ntsx.Field(replayWant, "answered")[j] == '1'
+		switch {
+		case j < len(gp) && wantsReply && gp[j] == '0' && len(it.b) > 48:
+			sig = "C09:listener:valid-nts-request-unanswered"
+			whatTxt = fmt.Sprintf("a valid NTS request (well-formed header; its cookie opens under the provider's key and its authenticator verifies under the cookie's C2S key) got no reply when it was datagram %d of this history on one listener socket", j+1)
+			*unanswered++
+		case j < len(gp) && wantsReply && gp[j] == '0':
+			sig = "C09:listener:valid-request-unanswered"
+			whatTxt = fmt.Sprintf("a well-formed 48-byte client request got no reply when it was datagram %d of this history on one listener socket", j+1)
+			*unanswered++
+		case j < len(gp) && !wantsReply && gp[j] != '0':
+			sig = fmt.Sprintf("C09:listener:answered-non-request:nts:%s", strings.SplitN(it.kind, ":", 2)[0])
+			whatTxt = "the listener answered a datagram that is not a well-formed client request (its NTS part does not authenticate by itself)"
+		case j < len(gp) && gp[j] > '1':
+			sig = "C09:listener:request-answered-more-than-once"
+			whatTxt = "a request was answered more than once"
+		case j < len(gk) && gk[j] == 'x' && strings.HasPrefix(ntsx.Field(replayAns, fmt.Sprintf("why%d", j)), "count:"):
+			sig = "C09:listener:nts-reply-cookie-count"
+			whatTxt = "the reply to a valid NTS request authenticates but does not carry one fresh cookie per cookie or placeholder field of THIS request (as many as fit): " + ntsx.Field(replayAns, fmt.Sprintf("why%d", j))
+		case j < len(gk) && gk[j] == 'x':
+			sig = "C09:listener:nts-reply-not-authentic"
+			whatTxt = "the reply to a valid NTS request does not authenticate under the S2C key of the association the request belongs to, or does not carry that association's fresh cookies: " + ntsx.Field(replayAns, fmt.Sprintf("why%d", j))
+		case j < len(gk) && gk[j] == 'p' && len(it.b) > 48:
+			sig = "C09:listener:nts-request-answered-unauthenticated"
+			whatTxt = "a valid NTS request was answered with a bare 48-byte reply"
+		}
+		var ks []string
+		for _, x := range items {
+			ks = append(ks, x.kind)
+		}
+		c.Fail(sig, whatTxt, []string{replay}, map[string]any{"got": replayAns, "want": replayWant, "datagram_kinds": ks, "failing_datagram": j + 1,
+			"replay_confirmed_in_fresh_process": confirmed, "first_seen_in": what, "first_seen_answer": ans, "first_seen_want": want,
+			"preceding_listener_ops": recentOps()})
+	}
+
+	pick := func(names []string) string { return names[r.Intn(len(names))] }
+	two := func() (*assoc, *assoc) {
+		i := r.Intn(len(assocs))
+		return assocs[i], assocs[(i+1+r.Intn(len(assocs)-1))%len(assocs)]
+	}
+	// 1. two associations on one socket, in both orders, plain requests in between
+	for i := 0; i < c.Scale(6, 60); i++ {
+		a, b := two()
+		history([]item{mk("nts", a), mk("nts", b)}, "A-B")
+		history([]item{mk("nts", a), mk("nts", a), mk("plain", nil), mk("nts", b), mk("nts", a), mk("nts", b)}, "A-A-plain-B-A-B")
+		history([]item{mk("plain", nil), mk(pick(ntsValid), a), mk("plain", nil), mk(pick(ntsValid), b), mk("plain", nil)}, "plain-A-plain-B-plain")
+	}
+	// 2. every kind of datagram that can leave something behind, then a valid request of each sort
+	for _, k := range leavesCookie {
+		for i := 0; i < c.Scale(2, 20); i++ {
+			a, b := two()
+			history([]item{mk(k, a), mk("nts", a)}, "leftover-then-same-association")
+			history([]item{mk(k, a), mk("nts", b)}, "leftover-then-other-association")
+			history([]item{mk(k, a), mk("plain", nil), mk(pick(ntsValid), b), mk("plain", nil)}, "leftover-then-plain-and-nts")
+		}
+	}
+	// 3. all ordered pairs of kinds
+	for _, k1 := range kinds {
+		for _, k2 := range kinds {
+			a, b := two()
+			if r.Bool() {
+				b = a
+			}
+			history([]item{mk(k1, a), mk(k2, b)}, "pairs")
+		}
+	}
+	// 4. random histories of 2..10 datagrams, 70 % valid requests
+	for i := 0; i < c.Scale(150, 4000); i++ {
+		n := 2 + r.Intn(9)
+		var items []item
+		for k := 0; k < n; k++ {
+			a := assocs[r.Intn(len(assocs))]
+			switch x := r.Intn(10); {
+			case x < 2:
+				items = append(items, mk("plain", nil))
+			case x < 7:
+				items = append(items, mk(pick(ntsValid), a))
+			default:
+				items = append(items, mk(pick(kinds), a))
+			}
+		}
+		history(items, "mixed")
+	}
+	// 5. one long history: the same socket sees many associations in turn
+	for i := 0; i < c.Scale(2, 20); i++ {
+		var items []item
+		for k := 0; k < 24; k++ {
+			items = append(items, mk([]string{"nts", "nts", "plain", "junk-cookie-field", "nts-foreign"}[r.Intn(5)], assocs[k%len(assocs)]))
+		}
+		history(items, "long")
 	}
 }
 
